@@ -105,6 +105,30 @@ Theorem C13_refused_cond_call_changes_nothing : forall T teqb (c : cond T) o os 
   cond_run T teqb c (o :: os) = (Some e :: fst (cond_run T teqb c os), snd (cond_run T teqb c os)).
 Proof. exact refused_cond_call_changes_nothing. Qed.
 
+(* builders as context managers: an error raised inside `with` blocks (of the Conditional and of builders
+   whose __exit__ checks nothing, in any nesting) reaches the caller of the outermost block - as itself or as the
+   ConditionalError of a Conditional context left with unbuilt cases; such a context always raises; a consistent
+   block is accepted; Python's `with` suppresses an exception exactly when __exit__ returns a true value, and
+   the builders whose __exit__ returns None hand everything on *)
+Theorem C13_error_in_context_reaches_caller : forall T teqb (c : cond T) body c1 e ctxs, RaisesInside teqb c body c1 e ->
+  exists e', with_nest T teqb c ctxs body = (c1, Some e') /\
+             (e' = e \/ (e' = ConditionalError /\ In CxCond ctxs /\ UnbuiltCases c1)).
+Proof. exact error_in_context_reaches_caller. Qed.
+Theorem C13_context_left_with_unbuilt_raises : forall T teqb (c : cond T) body c1 ctxs,
+  Accepted teqb c body c1 \/ (exists e, RaisesInside teqb c body c1 e) ->
+  In CxCond ctxs -> UnbuiltCases c1 -> with_nest T teqb c ctxs body = (c1, Some ConditionalError).
+Proof. exact context_left_with_unbuilt_raises. Qed.
+Theorem C13_consistent_block_accepted : forall T teqb (c : cond T) body c1 ctxs, Accepted teqb c body c1 ->
+  (In CxCond ctxs -> ~ UnbuiltCases c1) -> with_nest T teqb c ctxs body = (c1, None).
+Proof. exact consistent_block_accepted. Qed.
+Theorem C13_exception_suppressed_iff_exit_true : forall e x, with_stmt (Some e) x = None <-> x = Ok true.
+Proof. exact with_stmt_suppresses_iff. Qed.
+Theorem C13_plain_contexts_transparent : forall n fl, with_plain n fl = fl.
+Proof. exact with_plain_transparent. Qed.
+Theorem C13_plain_statements_are_caught_calls : forall T teqb (c : cond T) os,
+  stmt_run T teqb c (map plain_stmt os) = cond_run T teqb c os.
+Proof. exact stmt_run_plain. Qed.
+
 Print Assumptions C13_wire_no_relation_raises.
 Print Assumptions C13_wire_outside_cfg_raises.
 Print Assumptions C13_non_dataflow_wire_raises.
@@ -131,3 +155,9 @@ Print Assumptions C13_untracked_index_raises_outputs.
 Print Assumptions C13_incomplete_op_serialise_raises.
 Print Assumptions C13_error_is_not_silent.
 Print Assumptions C13_refused_cond_call_changes_nothing.
+Print Assumptions C13_error_in_context_reaches_caller.
+Print Assumptions C13_context_left_with_unbuilt_raises.
+Print Assumptions C13_consistent_block_accepted.
+Print Assumptions C13_exception_suppressed_iff_exit_true.
+Print Assumptions C13_plain_contexts_transparent.
+Print Assumptions C13_plain_statements_are_caught_calls.
